@@ -67,6 +67,7 @@ type GhostDecl struct {
 
 type SpecFunc struct {
 	Opaque bool // predicate: applied as an uninterpreted function with a defining axiom
+	Lazy   bool // opaquefunc: uninterpreted function (any result sort), never unfolded when assumed; a goal offers its one-level unfolding as alternative
 	Name   string
 	Params []QVar
 	Body   *Expr
@@ -174,7 +175,7 @@ func (sp *Specs) loadSpecFile(path string) error {
 			stmts = append(stmts, stmt{strings.TrimSpace(t), nums[i]})
 			continue
 		}
-		if w == "scope" || w == "spec" || w == "owned" || w == "predicate" || w == "prove" || w == "protected" || w == "writeguard" || w == "onwrite" || w == "ghost" || w == "ghostfield" || w == "specfunc" || w == "lemma" || clauseKeywords[w] {
+		if w == "scope" || w == "spec" || w == "owned" || w == "predicate" || w == "opaquefunc" || w == "prove" || w == "protected" || w == "writeguard" || w == "onwrite" || w == "ghost" || w == "ghostfield" || w == "specfunc" || w == "lemma" || clauseKeywords[w] {
 			stmts = append(stmts, stmt{strings.TrimSpace(t), nums[i]})
 		} else if len(stmts) > 0 {
 			stmts[len(stmts)-1].text += " " + strings.TrimSpace(t)
@@ -336,7 +337,7 @@ func (sp *Specs) loadSpecFile(path string) error {
 			}
 			name := parts[0][i+1:]
 			sp.Ghosts[parts[0]] = &GhostDecl{Name: name, Type: ty, Field: true, Owner: parts[0][:i]}
-		case "specfunc", "predicate":
+		case "specfunc", "predicate", "opaquefunc":
 			// specfunc name(a T, b U) = expr
 			eqi := strings.Index(rest, "=")
 			if eqi < 0 {
@@ -369,7 +370,7 @@ func (sp *Specs) loadSpecFile(path string) error {
 			if err != nil {
 				return errf("%v", err)
 			}
-			sp.SpecFuncs[name] = &SpecFunc{Name: name, Params: params, Body: be, Pkg: pkg, Opaque: w == "predicate"}
+			sp.SpecFuncs[name] = &SpecFunc{Name: name, Params: params, Body: be, Pkg: pkg, Opaque: w == "predicate" || w == "opaquefunc", Lazy: w == "opaquefunc"}
 		case "lemma":
 			sp.Lemmas = append(sp.Lemmas, rest)
 		default:
